@@ -76,6 +76,10 @@ type c06gen struct {
 }
 
 func (h *c06gen) fid() uint32 {
+	// mostly the fids a session has set up (0 root, 1 open directory, 2 created file, 3 open file)
+	if h.r.Intn(5) < 3 {
+		return uint32(h.r.Intn(4))
+	}
 	return []uint32{0, 1, 2, 3, 4, 5, g.NOFID, 0xFFFFFFFE, 0x80000000, h.r.Uint32()}[h.r.Intn(10)]
 }
 func (h *c06gen) tag() uint16 {
@@ -251,6 +255,7 @@ func (h *c06gen) validSession() [][]byte {
 		mk(8, func(fc *g.Fcall) error { return g.PackTread(fc, 2, 0, 5) }),
 		mk(9, func(fc *g.Fcall) error { return g.PackTstat(fc, 2) }),
 		mk(10, func(fc *g.Fcall) error { return g.PackTwalk(fc, 0, 3, []string{"file"}) }),
+		mk(15, func(fc *g.Fcall) error { return g.PackTopen(fc, 3, g.ORDWR) }),
 		mk(11, func(fc *g.Fcall) error { return g.PackTflush(fc, 10) }),
 		mk(12, func(fc *g.Fcall) error { return g.PackTclunk(fc, 1) }),
 		mk(13, func(fc *g.Fcall) error { return g.PackTremove(fc, 2) }),
@@ -417,8 +422,10 @@ func runC06(line string, kind, target string, msize uint32, dotu bool, seed int6
 			if r.Intn(4) > 0 {
 				stream = append(stream, vs[1]...)
 			}
-			for _, f := range vs[2:] {
-				if r.Intn(3) == 0 {
+			// the set-up part of the valid session (everything before its clunks), whole or in part
+			whole := r.Intn(2) == 0
+			for _, f := range vs[2 : len(vs)-3] {
+				if whole || r.Intn(3) == 0 {
 					stream = append(stream, f...)
 				}
 			}
